@@ -35,6 +35,8 @@ type c34Obs struct {
 	Cmds       []string `json:"cmds"`
 	SubShell   bool     `json:"subshell"`
 	Redirect   bool     `json:"redirect"`
+	AllCmds    []string `json:"all_cmds,omitempty"` // grammar cases: commands of ParseBlock(whole line)
+	AllErr     bool     `json:"all_err,omitempty"`
 }
 
 // c34Walk collects the commands of block, recursively.
@@ -77,6 +79,14 @@ func c34Walk(block []rune, depth int, o *c34Obs) (ok bool) {
 	for i, c := range r.cmds {
 		// parsed without executing, a `name:` command keeps its colon in the tree; the command that runs is `name`
 		name := strings.TrimSuffix(string(c), ":")
+		// the expression statement consisting of the single literal true / false / null is the
+		// command of that name as far as this property is concerned (it evaluates the literal)
+		if name == lang.ExpressionFunctionName && len(r.pars[i]) == 1 {
+			switch lit := strings.TrimSpace(string(r.pars[i][0])); lit {
+			case "true", "false", "null":
+				name = lit
+			}
+		}
 		o.Cmds = append(o.Cmds, name)
 		if r.pipes[i] > 0 || name == "<pipe>" {
 			o.Redirect = true
@@ -107,13 +117,26 @@ func c34Observe(src []rune) c34Obs {
 }
 
 func (c34) Run(raw json.RawMessage) Result {
-	var c tokCase
+	var c c34GCase
 	if err := json.Unmarshal(raw, &c); err != nil {
 		die("C34: bad case: %v", err)
 	}
-	_ = lang.ExpressionFunctionName
 	src := c.runes()
 	o := c34Observe(src)
+	lineTerm := "None"
+	if c.G != nil {
+		if c.G.render() != string(src) {
+			die("C34: grammar case does not render to its runes")
+		}
+		var all c34Obs
+		o.AllErr = !c34Walk(src, 0, &all)
+		o.AllCmds = all.Cmds
+		lineTerm = "(Some " + c.G.coq() + ")"
+	}
+	allCmds := make([]string, len(o.AllCmds))
+	for i, s := range o.AllCmds {
+		allCmds[i] = tokRunes([]rune(s))
+	}
 	cmds := make([]string, len(o.Cmds))
 	for i, s := range o.Cmds {
 		cmds[i] = tokRunes([]rune(s))
@@ -121,8 +144,12 @@ func (c34) Run(raw json.RawMessage) Result {
 	coq := coqlit.Record("c_src", tokRunes(src), "c_unsafe", coqlit.Bool(o.Unsafe), "c_func", tokRunes([]rune(o.FuncName)),
 		"c_expect_func", coqlit.Bool(o.ExpectFunc), "c_last_flow", coqlit.Z(int64(o.LastFlow)),
 		"c_perr", coqlit.Bool(o.ParseErr), "c_cmds", coqlit.List(cmds), "c_subshell", coqlit.Bool(o.SubShell),
-		"c_redirect", coqlit.Bool(o.Redirect))
+		"c_redirect", coqlit.Bool(o.Redirect),
+		"c_line", lineTerm, "c_all_cmds", coqlit.List(allCmds), "c_all_perr", coqlit.Bool(o.AllErr))
 	cls := "unsafe"
+	if c.G != nil {
+		cls = "grammar/unsafe"
+	}
 	if !o.Unsafe {
 		switch {
 		case o.LastFlow == 0:
@@ -131,6 +158,9 @@ func (c34) Run(raw json.RawMessage) Result {
 			cls = "safe/does-not-parse"
 		default:
 			cls = "safe/runs"
+		}
+		if c.G != nil {
+			cls = "grammar/" + cls
 		}
 	}
 	return Result{Obs: o, Coq: coq, Nontrivial: !o.Unsafe && o.LastFlow > 0 && !o.ParseErr, Class: cls}
@@ -214,6 +244,7 @@ func (c34) Gen(seed int64, tier string, emit func(any)) {
 		}
 		e(b.String())
 	}
+	c34GenGrammar(seed, tier, emit)
 }
 
 func (c34) Shrink(raw json.RawMessage) []any {
